@@ -79,6 +79,9 @@ def run(model, tier="quick"):
                   "per-token accrual uses each token's own volume and decimals", [], opaque=["from_atomic_unit"])
     nu = [r for r in C06.REFS if r[0].endswith("nearest_usable_tick")][0]
     formula_check(res, model, nu[0], nu[1], "tick trimming is round-half-even of tick/spacing (symmetric under negation)")
+    from .base_refs import token_identity, numeric_coercion
+    token_identity(res, model)       # `quote_token == token0` decides the orientation: equality must be by name
+    numeric_coercion(res, model)
     from .base_refs import swap_sizing
     swap_sizing(res, model)      # the value algebra add_liquidity_by_value feeds with orientation-mapped values
     res.floor("obligations", len(res.obligations), 27)
